@@ -159,6 +159,7 @@ func cmdMutants(args []string) int {
 			Tier     string   `json:"tier"`
 			What     string   `json:"what"`
 			ExpectMissed bool `json:"expect_missed"`
+			KnownMiss    string `json:"known_miss"` // a breaking change the machinery cannot reach, with the reason (DESIGN.md section 11)
 		}
 		data, err := os.ReadFile(filepath.Join(dir, e.Name(), "meta.json"))
 		if err != nil || json.Unmarshal(data, &meta) != nil {
@@ -207,6 +208,8 @@ func cmdMutants(args []string) int {
 			}
 		} else if meta.ExpectMissed {
 			verdict = "not reported (as expected: the change does not break the property)"
+		} else if meta.KnownMiss != "" && verdict == "MISSED" {
+			verdict = "MISSED (known limit: " + meta.KnownMiss + ")"
 		} else {
 			missed++
 		}
